@@ -37,6 +37,10 @@ def norm(s):
     return re.sub(r"\s+", " ", s).strip()
 
 
+def chunks(v, n=100):
+    return '[' + ', '.join(lean_str(v[i:i + n]) for i in range(0, max(len(v), 1), n)) + ']'
+
+
 def lean_str(s):
     return '"' + s.replace("\\", "\\\\").replace('"', '\\"') + '"'
 
@@ -85,8 +89,8 @@ def emit(ns, data, header):
     out.append(",\n".join(f"  ({lean_str(o)}, {b(s)})" for o, s in neg_rows) + "]\n")
     out.append("def otherRows : List (String × String × String) := [")
     out.append(",\n".join(f"  ({lean_str(o)}, {lean_str(m)}, {lean_str(a)})" for o, m, a in other) + "]\n")
-    out.append("def pinned : List (String × String) := [")
-    out.append(",\n".join(f"  ({lean_str(k)}, {lean_str(v)})" for k, v in pinned) + "]\n")
+    out.append("def pinned : List (String × List String) := [")
+    out.append(",\n".join(f"  ({lean_str(k)}, {chunks(v)})" for k, v in pinned) + "]\n")
     out.append(f"end MirVerif.{ns}")
     return "\n".join(out) + "\n"
 
